@@ -69,6 +69,8 @@ impl<T> Object<T> {
     #[must_use]
     pub fn take(mut this: Self) -> T {
         if let Some(pool) = this.pool.upgrade() {
+            #[cfg(deadpool_verif)]
+            crate::verif::point("u.take");
             let _ = pool.size.fetch_sub(1, Ordering::Relaxed);
             pool.size_semaphore.add_permits(1);
         }
@@ -80,12 +82,18 @@ impl<T> Drop for Object<T> {
     fn drop(&mut self) {
         if let Some(obj) = self.obj.take() {
             if let Some(pool) = self.pool.upgrade() {
+                #[cfg(deadpool_verif)]
+                crate::verif::point("u.drop.push");
                 {
                     let mut queue = pool.queue.lock().unwrap();
                     queue.push(obj);
                 }
                 let _ = pool.available.fetch_add(1, Ordering::Relaxed);
+                #[cfg(deadpool_verif)]
+                crate::verif::point("u.drop.add");
                 pool.semaphore.add_permits(1);
+                #[cfg(deadpool_verif)]
+                crate::verif::point("u.drop.clean");
                 pool.clean_up();
             }
         }
@@ -189,17 +197,23 @@ impl<T> Pool<T> {
     /// See [`PoolError`] for details.
     pub fn try_get(&self) -> Result<Object<T>, PoolError> {
         let inner = self.inner.as_ref();
+        #[cfg(deadpool_verif)]
+        crate::verif::point("u.get.acquire");
         let waiting = Waiting::new(&inner.available);
         let permit = inner.semaphore.try_acquire().map_err(|e| match e {
             TryAcquireError::NoPermits => PoolError::Timeout,
             TryAcquireError::Closed => PoolError::Closed,
         })?;
+        #[cfg(deadpool_verif)]
+        crate::verif::point("u.get.pop");
         let obj = {
             let mut queue = inner.queue.lock().unwrap();
             queue.pop()
         };
         let Some(obj) = obj else {
             // The pool was closed and emptied after the permit was acquired.
+            #[cfg(deadpool_verif)]
+            crate::verif::point("u.get.closed");
             return Err(PoolError::Closed);
         };
         permit.forget();
@@ -218,6 +232,8 @@ impl<T> Pool<T> {
     /// See [`PoolError`] for details.
     pub async fn timeout_get(&self, timeout: Option<Duration>) -> Result<Object<T>, PoolError> {
         let inner = self.inner.as_ref();
+        #[cfg(deadpool_verif)]
+        crate::verif::point("u.get.acquire");
         let waiting = Waiting::new(&inner.available);
         let permit = match (timeout, inner.config.runtime) {
             (None, _) => inner
@@ -238,12 +254,16 @@ impl<T> Pool<T> {
                 .map_err(|_| PoolError::Closed),
             (Some(_), None) => Err(PoolError::NoRuntimeSpecified),
         }?;
+        #[cfg(deadpool_verif)]
+        crate::verif::point("u.get.pop");
         let obj = {
             let mut queue = inner.queue.lock().unwrap();
             queue.pop()
         };
         let Some(obj) = obj else {
             // The pool was closed and emptied after the permit was acquired.
+            #[cfg(deadpool_verif)]
+            crate::verif::point("u.get.closed");
             return Err(PoolError::Closed);
         };
         permit.forget();
@@ -264,6 +284,8 @@ impl<T> Pool<T> {
     /// If the [`Pool`] has been closed a tuple containing the `object` and
     /// the [`PoolError`] is returned instead.
     pub async fn add(&self, object: T) -> Result<(), (T, PoolError)> {
+        #[cfg(deadpool_verif)]
+        crate::verif::point("u.add.acquire");
         match self.inner.size_semaphore.acquire().await {
             Ok(permit) => {
                 permit.forget();
@@ -282,6 +304,8 @@ impl<T> Pool<T> {
     /// has been closed, then a tuple containing the `object` and the
     /// [`PoolError`] is returned instead.
     pub fn try_add(&self, object: T) -> Result<(), (T, PoolError)> {
+        #[cfg(deadpool_verif)]
+        crate::verif::point("u.add.acquire");
         match self.inner.size_semaphore.try_acquire() {
             Ok(permit) => {
                 permit.forget();
@@ -301,14 +325,20 @@ impl<T> Pool<T> {
     /// `max_size`. In the methods `add` and `try_add` this is ensured by using
     /// the `size_semaphore`.
     fn _add(&self, object: T) {
+        #[cfg(deadpool_verif)]
+        crate::verif::point("u.add.push");
         let _ = self.inner.size.fetch_add(1, Ordering::Relaxed);
         {
             let mut queue = self.inner.queue.lock().unwrap();
             queue.push(object);
         }
         let _ = self.inner.available.fetch_add(1, Ordering::Relaxed);
+        #[cfg(deadpool_verif)]
+        crate::verif::point("u.add.add");
         self.inner.semaphore.add_permits(1);
         // The pool might have been closed since the slot was acquired.
+        #[cfg(deadpool_verif)]
+        crate::verif::point("u.add.clean");
         self.inner.clean_up();
     }
 
@@ -333,8 +363,14 @@ impl<T> Pool<T> {
     /// All current and future tasks waiting for [`Object`]s will return
     /// [`PoolError::Closed`] immediately.
     pub fn close(&self) {
+        #[cfg(deadpool_verif)]
+        crate::verif::point("u.close.sem");
         self.inner.semaphore.close();
+        #[cfg(deadpool_verif)]
+        crate::verif::point("u.close.size_sem");
         self.inner.size_semaphore.close();
+        #[cfg(deadpool_verif)]
+        crate::verif::point("u.close.clear");
         self.inner.clear();
     }
 
@@ -358,6 +394,22 @@ impl<T> Pool<T> {
             } else {
                 0
             },
+        }
+    }
+}
+
+#[cfg(deadpool_verif)]
+impl<T> Pool<T> {
+    /// Internal state of this [`Pool`] (verification harness only).
+    pub fn verif_snapshot(&self) -> crate::verif::UnmanagedSnapshot {
+        crate::verif::UnmanagedSnapshot {
+            permits: self.inner.semaphore.available_permits(),
+            size_permits: self.inner.size_semaphore.available_permits(),
+            closed: self.inner.semaphore.is_closed(),
+            size_closed: self.inner.size_semaphore.is_closed(),
+            size: self.inner.size.load(Ordering::Relaxed),
+            available: self.inner.available.load(Ordering::Relaxed),
+            queue: self.inner.queue.try_lock().ok().map(|q| q.len()),
         }
     }
 }
